@@ -10,7 +10,7 @@ from sim.world import WORLD, SimSinkError, HarnessError
 from sim import observe
 from sim.lib import KINDS
 
-MUTATIONS = {"NEW", "ADD_OP", "ADD_SUB", "NEW_LIB", "COPY", "APPLY", "FLATTEN", "SET_DUR", "SET_REP",
+MUTATIONS = {"NEW", "ADD_OP", "ADD_OP_IN", "ADD_SUB", "NEW_LIB", "COPY", "APPLY", "FLATTEN", "SET_DUR", "SET_REP",
              "OVR_ENTER", "OVR_LEAVE", "SET_INIT"}
 FAULTS = {"FLUSH", "SINK_FAIL", "GC", "IDLE"}
 
@@ -154,6 +154,17 @@ class Exec:
             ref = link.reference_node if not isinstance(link, L.MultiRelationLink) else "multi"
             self.placements.append({"step": i, "ret_is_op": ret is o, "rt": link.relation_type.name,
                                     "ref_obj": ref, "ref_ent": self.entry_of(ref) if ref is not None and ref != "multi" else None})
+        elif op == "ADD_OP_IN":
+            # add to a nested sub-circuit through the handle that add(sub-circuit) returned
+            h = self.handles[st["c"]]
+            target = h.entries[st["k"]]
+            o = self.make_op(st, h)
+            target.add(o)
+            self._keep.append(o)
+            link = o.relation_link
+            ref = link.reference_node if not isinstance(link, L.MultiRelationLink) else "multi"
+            self.placements.append({"step": i, "ret_is_op": True, "rt": link.relation_type.name, "ref_obj": ref,
+                                    "ref_ent": None, "key": id(o)})
         elif op == "ADD_SUB":
             h = self.handles[st["c"]]
             child = self.handles[st["child"]]
